@@ -22,11 +22,36 @@ def pub(m):
     return [(k, v) for k, v in m.__dict__.items() if not k.startswith("_")]
 
 
+class _View:
+    """position / exhaustion of a genuine io.BufferedReader (peek(), read1(), internal buffer of a generated size)"""
+
+    def __init__(self, br, n):
+        self.br, self.n = br, n
+
+    @property
+    def pos(self):
+        return self.br.tell()
+
+    @property
+    def exhausted(self):
+        return self.br.tell() >= self.n
+
+
+STREAMKIND = {"kind": "scripted", "bufsize": 16}
+
+
 def run(data, **kw):
+    import io
+
     from pyrtcm import RTCMReader
 
-    stream = ScriptedStream(data, (), slack=32)
-    rdr = RTCMReader(stream, **kw)
+    if STREAMKIND["kind"] == "buffered":
+        br = io.BufferedReader(io.BytesIO(data), buffer_size=STREAMKIND["bufsize"])
+        rdr = RTCMReader(br, **kw)
+        stream = _View(br, len(data))
+    else:
+        stream = ScriptedStream(data, (), slack=32)
+        rdr = RTCMReader(stream, **kw)
     out = []
     for _ in range(len(data) + 8):
         try:
@@ -61,6 +86,22 @@ def spans(out, data, cfg):
 
 
 def o_opts(case):
+    import logging
+
+    STREAMKIND["kind"] = case.get("stream", "scripted")
+    STREAMKIND["bufsize"] = case.get("bufsize", 16)
+    lg = logging.getLogger("pyrtcm")
+    old_level = lg.level
+    if case.get("debug"):
+        lg.setLevel(logging.DEBUG)  # a legitimate application setting; must not change what is returned
+    try:
+        return _o_opts(case)
+    finally:
+        lg.setLevel(old_level)
+        STREAMKIND["kind"] = "scripted"
+
+
+def _o_opts(case):
     from pyrtcm import RTCMReader
     from pyrtcm.exceptions import RTCMParseError
 
@@ -131,7 +172,7 @@ def o_opts(case):
             raise Fail("byte-accounting", f"{nm}: stream not consumed to the end")
     nbad = len(allframes) - len(goodframes)
     foreign = any(i["k"] in ("nmea", "ubx", "noise") for i in items)
-    cls = [f"qoe{qoe}", f"labelmsm{lm}", f"validate{case['validate']}"]
+    cls = [f"qoe{qoe}", f"labelmsm{lm}", f"validate{case['validate']}", "stream-" + case.get("stream", "scripted")] + (["debug-logging"] if case.get("debug") else [])
     if nbad:
         cls.append("has-wrong-crc")
     if any(i["k"] == "badcrc" and i.get("syncy_payload") for i in items):
@@ -158,6 +199,9 @@ def s_opts(draw, tier):
         "labelmsm": draw(st.sampled_from([1, 2])),
         "qoe": draw(st.sampled_from([0, 1, 2])),
         "validate": draw(st.sampled_from([0, 1])),
+        "stream": draw(st.sampled_from(["scripted", "scripted", "buffered"])),
+        "bufsize": draw(st.sampled_from([2, 3, 16, 16, 64, 8192])),
+        "debug": draw(st.integers(0, 3)) == 0,
     }
 
 
@@ -166,5 +210,5 @@ def _sample(c):
 
 
 SUBS = [
-    Sub("option_differential", o_opts, strategy=s_opts, examples=(150, 3000), rule="see property rule", need={"has-wrong-crc": 1, "has-foreign": 1, "wrong-crc-frame-with-sync-like-payload": 1}, sample=_sample),
+    Sub("option_differential", o_opts, strategy=s_opts, examples=(150, 3000), rule="see property rule", need={"has-wrong-crc": 1, "has-foreign": 1, "wrong-crc-frame-with-sync-like-payload": 1, "stream-buffered": 1, "debug-logging": 1}, sample=_sample),
 ]
